@@ -230,3 +230,131 @@ package sm4
 //@     (invariant range (and (bvsle 0 i) (bvsle i (bvsdiv (len inData) 16))))
 //@     (invariant zeros (forall ((a B64)) (=> (bvuge (bvsub a (off out)) (bvmul 16 i)) (= (select (row out) a) #x00))))
 //@     (decreases (bvsub (bvsdiv (len inData) 16) i))))
+
+//@ (func addition
+//@   (ensures nilcase (=> (not (= (len a) (len b))) (isnil out)))
+//@   (ensures len (=> (= (len a) (len b)) (and (= (len out) (len a)) (= (cap out) (len a)) (= (off out) 0))))
+//@   (ensures content (=> (= (len a) (len b)) (forall ((j B64)) (=> (bvult j (len a))
+//@        (= (select (row out) j) (bvxor (select (row a) (bvadd (off a) j)) (select (row b) (bvadd (off b) j))))))))
+//@   (ensures block (=> (and (= (len a) 16) (= (len b) 16)) (= (blk128 out) (bvxor (old (blk128 a)) (old (blk128 b))))))
+//@   (fresh out)
+//@   (loop 1
+//@     (invariant range (and (bvsle 0 i) (bvsle i (len a))))
+//@     (invariant done (forall ((j B64)) (=> (bvult j i)
+//@        (= (select (row out) j) (bvxor (select (row a) (bvadd (off a) j)) (select (row b) (bvadd (off b) j)))))))
+//@     (decreases (bvsub (len a) i))))
+
+//@ (func Rightshift
+//@   (uses "gcm")
+//@   (requires block (= (len V) 16))
+//@   (ensures shifted (= (blk128 V) (bvlshr (old (blk128 V)) #x00000000000000000000000000000001)))
+//@   (modifies (cells V 0 16)))
+
+//@ (func findYi
+//@   (uses "gcm")
+//@   (requires range (and (bvsle 0 index) (bvslt index (bvmul 8 (len Y))) (bvsle (len Y) 4096)))
+//@   (returns result (ite (gf.bitr (row Y) (off Y) index) 1 0)))
+
+//@ (func multiplication
+//@   (uses "gcm")
+//@   (requires blocks (and (= (len X) 16) (= (len Y) 16)))
+//@   (fresh Z)
+//@   (ensures len (= (len Z) 16))
+//@   (ensures product (= (blk128 Z) (gf.mulr (old (blk128 X)) (old (row Y)) (off Y))))
+//@   (loop 1
+//@     (invariant range (and (bvsle 0 i) (bvsle i 128)))
+//@     (invariant shapes (and (= (len Z) 16) (= (len V) 16) (fresh-obj Z) (fresh-obj V) (distinct (obj Z) (obj V))))
+//@     (invariant consts (and (= (blk128 R) gf.R) (= (len R) 16)))
+//@     (invariant frame (forall ((o Int) (a B64)) (=> (not (fresh-id o)) (= (select (select (heap b8) o) a) (select (select (old (heap b8)) o) a)))))
+//@     (invariant z (= (blk128 Z) (gf.Zr (old (blk128 X)) (old (row Y)) (off Y) i)))
+//@     (invariant v (= (blk128 V) (gf.V (old (blk128 X)) i)))
+//@     (assert-next zset (=> (gf.bitr (old (row Y)) (off Y) i@head)
+//@          (= (blk128 Z) (bvxor (gf.Zr (old (blk128 X)) (old (row Y)) (off Y) i@head) (gf.V (old (blk128 X)) i@head)))))
+//@     (assert-next zkeep (=> (not (gf.bitr (old (row Y)) (off Y) i@head))
+//@          (= (blk128 Z) (gf.Zr (old (blk128 X)) (old (row Y)) (off Y) i@head))))
+//@     (unfold (gf.Zr (old (blk128 X)) (old (row Y)) (off Y) (bvadd i 1)) (gf.V (old (blk128 X)) (bvadd i 1)))
+//@     (unfold-init (gf.Zr (old (blk128 X)) (old (row Y)) (off Y) i) (gf.V (old (blk128 X)) i))
+//@     (decreases (bvsub 128 i))))
+
+//@ (defmacro blkat (s k) (blk.at (row s) (bvadd (off s) (bvmul 16 k))))
+
+//@ (func GetH
+//@   (uses "sm4" "sm4:keyed" "modes")
+//@   (requires keylen (= (len key) 16))
+//@   (apply (apply-lemma sm4.rounds_ext (r2 (sm4.ksrow (blk128 key))) (o2 0) (n 32)))
+//@   (fresh H)
+//@   (ensures len (= (len H) 16))
+//@   (ensures value (= (blk128 H) (sm4.enc (old (blk128 key)) #x00000000000000000000000000000000))))
+
+//@ (func "incr$1"
+//@   (uses "gcm")
+//@   (requires blocks (and (= (len yi) 16) (= (len yii) 16)))
+//@   (ensures next (= (blk128 yii) (gcm.inc32 (old (blk128 yi)))))
+//@   (modifies (cells yii 0 16)))
+
+//@ (func incr
+//@   (uses "gcm" "modes")
+//@   (requires count (and (bvsge n 1) (bvsle n #x0000000010000000)))
+//@   (requires block (= (len Y_i) 16))
+//@   (fresh Y_ii)
+//@   (ensures len (= (len Y_ii) (bvmul 16 n)))
+//@   (ensures counters (forall ((k B64)) (=> (bvult k n) (= (blkat Y_ii k) (gcm.ctr (old (blk128 Y_i)) k)))))
+//@   (loop 1
+//@     (invariant range (and (bvsle 1 i) (bvsle i n)))
+//@     (invariant done (forall ((k B64)) (=> (bvult k i) (= (blkat Y_ii k) (gcm.ctr (old (blk128 Y_i)) k)))))
+//@     (unfold (gcm.ctr (old (blk128 Y_i)) i))
+//@     (unfold-init (gcm.ctr (old (blk128 Y_i)) 0))
+//@     (decreases (bvsub n i))))
+
+//@ (func "GHASH$1"
+//@   (requires ptrs (and (not (isnil &X)) (not (isnil &H)) (not (= (obj &X) (obj &H)))))
+//@   (requires shapes (and (= (len X) 16) (= (len H) 16)))
+//@   (ensures shape (= (len X) 16))
+//@   (modifies (deref &X))
+//@   (loop 1
+//@     (invariant shape (= (len X) 16))
+//@     (invariant window (and (bvsle 0 (len data)) (bvsle (len data) (cap data))))
+//@     (invariant frame (forall ((o Int) (a B64)) (=> (not (fresh-id o)) (= (select (select (heap b8) o) a) (select (select (old (heap b8)) o) a)))))
+//@     (decreases (len data))))
+//@ (func "GHASH$2" inline)
+
+//@ (func GHASH
+//@   (requires hlen (= (len H) 16))
+//@   (ensures len (= (len X) 16))
+//@   (ensures fresh (fresh-obj X)))
+
+//@ (func GetY0
+//@   (requires hlen (= (len H) 16))
+//@   (requires ivlen (and (bvsge (len IV) 1) (bvsle (len IV) #x0000000010000000)))
+//@   (ensures len (= (len result) 16))
+//@   (ensures fresh (fresh-obj result)))
+
+//@ (func MSB inline)
+//@ (func "GCMEncrypt$1" inline)
+//@ (func "GCMDecrypt$1" inline)
+
+//@ (func GCMEncrypt
+//@   (requires keylen (= (len K) 16))
+//@   (requires ivlen (and (bvsge (len IV) 1) (bvsle (len IV) #x0000000010000000)))
+//@   (requires plen (bvsle (len P) #x0000000010000000))
+//@   (ensures clen (= (len C) (len P)))
+//@   (ensures tlen (= (len T) 16))
+//@   (loop 1
+//@     (invariant range (and (bvsle 1 i) (bvsle i n)))
+//@     (decreases (bvsub n i))))
+
+//@ (func GCMDecrypt
+//@   (requires keylen (= (len K) 16))
+//@   (requires ivlen (and (bvsge (len IV) 1) (bvsle (len IV) #x0000000010000000)))
+//@   (requires clen (bvsle (len C) #x0000000010000000))
+//@   (ensures plen (= (len P) (len C)))
+//@   (ensures tlen (= (len _T) 16))
+//@   (loop 1
+//@     (invariant range (and (bvsle 1 i) (bvsle i n)))
+//@     (decreases (bvsub n i))))
+
+//@ (func Sm4GCM
+//@   (requires ivlen (and (bvsge (len IV) 1) (bvsle (len IV) #x0000000010000000)))
+//@   (requires inlen (bvsle (len in) #x0000000010000000))
+//@   (ensures keylen (=> (not (= (len key) 16)) (not (isnil result.2))))
+//@   (ensures lens (=> (= (len key) 16) (and (isnil result.2) (= (len result.0) (len in)) (= (len result.1) 16)))))
